@@ -61,6 +61,52 @@ type factInfo struct {
 
 func (fx *factInfo) active() bool { return fx != nil && len(fx.tracked) > 0 }
 
+// StableField, if set, tells the engine which struct fields are never written after their object has been
+// constructed (configuration options): every load of such a field through the same access path reads the
+// same value, so a test of one load decides the later ones.
+var StableField func(f *types.Var) bool
+
+// stableLoadName returns a shared name for loads of a stable access path rooted at a parameter or free
+// variable ("" if v is not such a load).
+func stableLoadName(v ssa.Value) string {
+	if StableField == nil {
+		return ""
+	}
+	u, ok := v.(*ssa.UnOp)
+	if !ok || u.Op != token.MUL {
+		return ""
+	}
+	if _, isFA := u.X.(*ssa.FieldAddr); !isFA {
+		return ""
+	}
+	p := PathOf(u.X)
+	if len(p.Fields) == 0 {
+		return ""
+	}
+	switch p.Root.(type) {
+	case *ssa.Parameter, *ssa.FreeVar:
+	default:
+		return ""
+	}
+	for _, f := range p.Fields {
+		if !StableField(f) {
+			return ""
+		}
+	}
+	if !isBoolType(v.Type()) && !nilable(v.Type()) {
+		return ""
+	}
+	return "L:" + p.String()
+}
+
+// nameOf is the key of a tracked value in the fact map.
+func factName(v ssa.Value) string {
+	if n := stableLoadName(v); n != "" {
+		return n
+	}
+	return v.Name()
+}
+
 var (
 	factMu    sync.Mutex
 	factCache = map[*ssa.Function]*factInfo{}
@@ -106,6 +152,7 @@ func nilable(t types.Type) bool {
 // condBase strips negations and comparisons with nil / boolean constants.
 func condBase(v ssa.Value) ssa.Value {
 	for {
+		v = Resolve(v) // a local kept in memory (named result with a defer) with one reaching store
 		switch x := v.(type) {
 		case *ssa.UnOp:
 			if x.Op == token.NOT {
@@ -201,6 +248,20 @@ func buildFacts(fn *ssa.Function) *factInfo {
 		}
 		fx.tracked[phi] = true
 	}
+	// loads of stable fields that are tested more than once
+	stableUses := map[string][]ssa.Value{}
+	for v := range feeds {
+		if n := stableLoadName(v); n != "" {
+			stableUses[n] = append(stableUses[n], v)
+		}
+	}
+	for _, vs := range stableUses {
+		if len(vs) > 1 {
+			for _, v := range vs {
+				fx.tracked[v] = true
+			}
+		}
+	}
 	// phis reached through tracked phis, and the leaves they merge
 	for changed := true; changed; {
 		changed = false
@@ -232,7 +293,7 @@ func buildFacts(fn *ssa.Function) *factInfo {
 		return fx
 	}
 	for v := range fx.tracked {
-		fx.byName[v.Name()] = v
+		fx.byName[factName(v)] = v
 		if in, ok := v.(ssa.Instruction); ok {
 			if _, isPhi := v.(*ssa.Phi); !isPhi && in.Block() != nil {
 				fx.defsIn[in.Block()] = append(fx.defsIn[in.Block()], v)
@@ -274,6 +335,22 @@ func buildFacts(fn *ssa.Function) *factInfo {
 					}
 				}
 			}
+		}
+	}
+	// loads that share a fact name share their uses
+	byFactName := map[string][]ssa.Value{}
+	for v := range fx.tracked {
+		if n := stableLoadName(v); n != "" {
+			byFactName[n] = append(byFactName[n], v)
+		}
+	}
+	for _, vs := range byFactName {
+		var all []*ssa.BasicBlock
+		for _, v := range vs {
+			all = append(all, uses[v]...)
+		}
+		for _, v := range vs {
+			uses[v] = all
 		}
 	}
 	for v, blocks := range uses {
@@ -329,6 +406,7 @@ func renderFacts(m map[string]byte) string {
 
 // valueFact returns what is known about v: 'T','F','Z','N' or 0.
 func (fx *factInfo) valueFact(m map[string]byte, v ssa.Value) byte {
+	v = Resolve(v)
 	if b, ok := boolConst(v); ok {
 		if b {
 			return 'T'
@@ -360,7 +438,7 @@ func (fx *factInfo) valueFact(m map[string]byte, v ssa.Value) byte {
 		}
 	}
 	if fx.tracked[v] {
-		return m[v.Name()]
+		return m[factName(v)]
 	}
 	return 0
 }
@@ -433,12 +511,13 @@ func (fx *factInfo) assume(facts string, cond ssa.Value, pol bool) (string, bool
 					other = x.Y
 				}
 				if other != nil {
+					other = Resolve(other)
 					if fx.tracked[other] {
 						isNil := pol == (x.Op == token.EQL)
 						if isNil {
-							m[other.Name()] = 'Z'
+							m[factName(other)] = 'Z'
 						} else {
-							m[other.Name()] = 'N'
+							m[factName(other)] = 'N'
 						}
 						changed = true
 					}
@@ -446,24 +525,36 @@ func (fx *factInfo) assume(facts string, cond ssa.Value, pol bool) (string, bool
 				}
 				if c, ok := boolConst(x.Y); ok && fx.tracked[x.X] {
 					val := (c == pol) == (x.Op == token.EQL)
-					m[x.X.Name()] = tf(val)
+					m[factName(x.X)] = tf(val)
 					changed = true
 				} else if c, ok := boolConst(x.X); ok && fx.tracked[x.Y] {
 					val := (c == pol) == (x.Op == token.EQL)
-					m[x.Y.Name()] = tf(val)
+					m[factName(x.Y)] = tf(val)
 					changed = true
 				}
 				return
 			}
 		}
-		if fx.tracked[v] && isBoolType(v.Type()) {
-			m[v.Name()] = tf(pol)
+		if rv := Resolve(v); fx.tracked[rv] && isBoolType(rv.Type()) {
+			m[factName(rv)] = tf(pol)
 			changed = true
 		}
 	}
 	learn(cond, pol)
 	if !changed {
 		return facts, true
+	}
+	// what was learnt about a merged value holds for the operand it stands for on this path
+	for k := range m {
+		i := strings.Index(k, "~")
+		if i < 0 {
+			continue
+		}
+		if f, ok := m[k[:i]]; ok && f != 'A' {
+			if _, known := m[k[i+1:]]; !known {
+				m[k[i+1:]] = f
+			}
+		}
 	}
 	return renderFacts(m), true
 }
@@ -498,6 +589,7 @@ func (fx *factInfo) enter(facts string, from *ssa.BasicBlock, si int, succ *ssa.
 		}
 	}
 	upd := map[string]byte{}
+	alias := map[string]string{}
 	for _, in := range succ.Instrs {
 		phi, ok := in.(*ssa.Phi)
 		if !ok {
@@ -508,6 +600,9 @@ func (fx *factInfo) enter(facts string, from *ssa.BasicBlock, si int, succ *ssa.
 		}
 		var f byte
 		if slot >= 0 && slot < len(phi.Edges) {
+			if e := Resolve(phi.Edges[slot]); fx.tracked[e] {
+				alias[factName(phi)] = factName(e) // on this way in the merged value IS that operand
+			}
 			f = fx.valueFact(m, phi.Edges[slot])
 			if isBoolType(phi.Type()) && f != 'T' && f != 'F' {
 				f = 0
@@ -516,23 +611,75 @@ func (fx *factInfo) enter(facts string, from *ssa.BasicBlock, si int, succ *ssa.
 				f = 0
 			}
 		}
-		upd[phi.Name()] = f
+		upd[factName(phi)] = f
 	}
 	for k, f := range upd {
+		// the previous alias of a re-merged value is gone
+		for ak := range m {
+			if strings.HasPrefix(ak, k+"~") {
+				delete(m, ak)
+			}
+		}
 		if f == 0 {
 			delete(m, k)
+			if a, ok := alias[k]; ok {
+				m[k+"~"+a] = 'A'
+			}
 		} else {
 			m[k] = f
 		}
 	}
 	for _, v := range fx.defsIn[succ] {
-		delete(m, v.Name())
+		if stableLoadName(v) != "" {
+			continue // a re-read of a stable field is the same value
+		}
+		delete(m, factName(v))
 	}
 	for k := range m {
-		v := fx.byName[k]
+		base := k
+		if i := strings.Index(k, "~"); i >= 0 {
+			base = k[:i]
+		}
+		v := fx.byName[base]
 		if v == nil || !fx.live[v][succ] {
 			delete(m, k)
 		}
 	}
 	return renderFacts(m)
+}
+
+
+type learntFact struct {
+	v   ssa.Value
+	val bool
+}
+
+// newlyLearnt lists the boolean, non-merged values whose truth became known between two fact sets
+// (through an alias with a merged flag), other than the branch condition itself.
+func (fx *factInfo) newlyLearnt(before, after string, cond ssa.Value) []learntFact {
+	mb, ma := parseFacts(before), parseFacts(after)
+	base := condBase(cond)
+	var names []string
+	for k, f := range ma {
+		if strings.Contains(k, "~") || (f != 'T' && f != 'F') {
+			continue
+		}
+		if mb[k] == f {
+			continue
+		}
+		names = append(names, k)
+	}
+	sort.Strings(names)
+	var out []learntFact
+	for _, k := range names {
+		v := fx.byName[k]
+		if v == nil || v == base {
+			continue
+		}
+		if _, isPhi := v.(*ssa.Phi); isPhi {
+			continue
+		}
+		out = append(out, learntFact{v, ma[k] == 'T'})
+	}
+	return out
 }
